@@ -270,14 +270,130 @@ Fixpoint join (sep : str) (l : list str) : str :=
   | x :: r => x ++ sep ++ join sep r
   end.
 
+Inductive cmpop := OpEq | OpNe | OpLt | OpGt | OpLe | OpGe.
+
+Definition cmp_num (op : cmpop) (p q : Z * N) : bool :=
+  match op with
+  | OpEq => num_eqv p q
+  | OpNe => negb (num_eqv p q)
+  | OpLt => num_lt p q
+  | OpGt => num_lt q p
+  | OpLe => negb (num_lt q p)
+  | OpGe => negb (num_lt p q)
+  end.
+
+(* ------------------------------------------------------------------ *)
+(* Expressions as aggregate arguments: rdflib/plugins/sparql/operators.py (UnaryMinus,
+   UnaryPlus, AdditiveExpression, RelationalExpression, ConditionalAnd/OrExpression,
+   UnaryNot, Builtin_IF, Builtin_COALESCE, Builtin_BOUND) on the term fragment.
+   None = the expression is an error in that solution (parserutils.Expr.eval returns the
+   SPARQLError; an unbound variable is an error too). *)
+Inductive texpr :=
+| EVar (v : var)
+| EConst (t : term)
+| ENeg (e : texpr)
+| EPos (e : texpr)
+| EAdd (a b : texpr)
+| ESub (a b : texpr)
+| EIf (c : bexpr) (a b : texpr)
+| ECoalesce (a b : texpr)
+with bexpr :=
+| BBound (v : var)
+| BCmp (op : cmpop) (a b : texpr)
+| BNot (c : bexpr)
+| BAnd (c d : bexpr)
+| BOr (c d : bexpr).
+
+Definition num_neg (a : numv) : numv :=
+  match a with NInt z => NInt (- z) | NDec m k => NDec (- m) k end.
+
+Definition is_lit (t : term) : bool := match t with TB _ | TI _ => false | _ => true end.
+
+(* Literal.eq: numeric literals by value, everything else by term *)
+Definition term_eqv (a b : term) : bool :=
+  match num_of a, num_of b with
+  | Some p, Some q => num_eqv p q
+  | _, _ => term_eqb a b
+  end.
+
+(* RelationalExpression: = and != on any two terms; <, >, <=, >= only on literals, where
+   Literal.__lt__/__gt__ is the total order also used by ORDER BY (a number is below a string) *)
+Definition cmp_terms (op : cmpop) (a b : term) : option bool :=
+  match op with
+  | OpEq => Some (term_eqv a b)
+  | OpNe => Some (negb (term_eqv a b))
+  | _ =>
+      if is_lit a && is_lit b then
+        Some (match op with
+              | OpLt => klt (Some a) (Some b)
+              | OpGt => klt (Some b) (Some a)
+              | OpLe => negb (klt (Some b) (Some a))
+              | _ => negb (klt (Some a) (Some b))
+              end)
+      else None
+  end.
+
+Definition num_arg (o : option term) : option numv :=
+  match o with Some t => numv_of t | None => None end.
+
+Fixpoint eval_t (e : texpr) (r : sol) : option term :=
+  match e with
+  | EVar v => lookup v r
+  | EConst t => Some t
+  | ENeg a => option_map (fun n => lit_of_num (num_neg n)) (num_arg (eval_t a r))
+  | EPos a => option_map lit_of_num (num_arg (eval_t a r))
+  | EAdd a b =>
+      match num_arg (eval_t a r), num_arg (eval_t b r) with
+      | Some n, Some m => Some (lit_of_num (num_add n m))
+      | _, _ => None
+      end
+  | ESub a b =>
+      match num_arg (eval_t a r), num_arg (eval_t b r) with
+      | Some n, Some m => Some (lit_of_num (num_add n (num_neg m)))
+      | _, _ => None
+      end
+  | EIf c a b =>
+      match eval_b c r with
+      | Some true => eval_t a r
+      | Some false => eval_t b r
+      | None => None
+      end
+  | ECoalesce a b => match eval_t a r with Some t => Some t | None => eval_t b r end
+  end
+with eval_b (c : bexpr) (r : sol) : option bool :=
+  match c with
+  | BBound v => Some (match lookup v r with Some _ => true | None => false end)
+  | BCmp op a b =>
+      match eval_t a r, eval_t b r with
+      | Some x, Some y => cmp_terms op x y
+      | _, _ => None
+      end
+  | BNot d => option_map negb (eval_b d r)
+  | BAnd d1 d2 =>
+      (* an error operand: false if the other one is false, else an error *)
+      match eval_b d1 r, eval_b d2 r with
+      | Some false, _ | _, Some false => Some false
+      | Some true, Some true => Some true
+      | _, _ => None
+      end
+  | BOr d1 d2 =>
+      match eval_b d1 r, eval_b d2 r with
+      | Some true, _ | _, Some true => Some true
+      | Some false, Some false => Some false
+      | _, _ => None
+      end
+  end.
+
+Definition is_var (e : texpr) : bool := match e with EVar _ => true | _ => false end.
+
 (* ------------------------------------------------------------------ *)
 (* Aggregates *)
 Inductive aggkind := ACount | ASum | AAvg | AMin | AMax | ASample | AConcat (sep : str).
 
-Record aggspec := { a_kind : aggkind; a_distinct : bool; a_arg : option var (* None = "*" *) }.
+Record aggspec := { a_kind : aggkind; a_distinct : bool; a_arg : option texpr (* None = "*" *) }.
 
-(* the values of the argument in the rows of a group, None = unbound *)
-Definition ovals (v : var) (rows : list sol) : list (option term) := map (lookup v) rows.
+(* the values of the argument in the rows of a group, None = unbound / error *)
+Definition ovals (e : texpr) (rows : list sol) : list (option term) := map (eval_t e) rows.
 
 Fixpoint bound (l : list (option term)) : list term :=
   match l with [] => [] | Some t :: r => t :: bound r | None :: r => bound r end.
@@ -321,7 +437,8 @@ Definition as_literal (t : term) : term :=
 (* result of one accumulator over the rows of one group; None = the variable is left unbound.
    As repaired by the "fix:" commits 0ada73ff (use_row skips unbound values also with DISTINCT),
    cdcdb849 (MIN/MAX bind the term itself), 127411f7 (a bound non-numeric value sets the
-   [failed] flag of Sum/Average: unbound for that group). *)
+   [failed] flag of Sum/Average: unbound for that group) and the commit for F-C08h (Counter,
+   Extremum, Sample, GroupConcat skip a solution in which the argument expression is an error). *)
 Definition agg_run (a : aggspec) (rows : list sol) : option term :=
   match a_arg a with
   | None =>   (* COUNT( * ): the full row *)
@@ -332,10 +449,15 @@ Definition agg_run (a : aggspec) (rows : list sol) : option term :=
       match a_kind a with
       | ACount => Some (TInt (Z.of_nat (length vals)))
       | ASum =>
-          if forallb is_numeric vals then Some (lit_of_num (sum_nums (nums_of vals)))
+          (* an argument EXPRESSION that is an error in a solution reaches Sum/Average as an
+             error value: AttributeError / SPARQLTypeError -> failed; an unbound plain
+             variable raises NotBoundError and is skipped *)
+          if negb (is_var v) && has_unbound ov then None
+          else if forallb is_numeric vals then Some (lit_of_num (sum_nums (nums_of vals)))
           else None                                        (* failed *)
       | AAvg =>
-          if forallb is_numeric vals then
+          if negb (is_var v) && has_unbound ov then None
+          else if forallb is_numeric vals then
             let nums := nums_of vals in
             match nums with
             | [] => Some (TInt 0)
@@ -368,18 +490,6 @@ Definition group_rows (gv : list var) (input : list sol) : list (gkey * list sol
 Definition groups_of (gv : list var) (input : list sol) : list (gkey * list sol) :=
   match gv with [] => [([], input)] | _ => group_rows gv input end.
 
-Inductive cmpop := OpEq | OpNe | OpLt | OpGt | OpLe | OpGe.
-
-Definition cmp_num (op : cmpop) (p q : Z * N) : bool :=
-  match op with
-  | OpEq => num_eqv p q
-  | OpNe => negb (num_eqv p q)
-  | OpLt => num_lt p q
-  | OpGt => num_lt q p
-  | OpLe => negb (num_lt q p)
-  | OpGe => negb (num_lt p q)
-  end.
-
 (* HAVING (agg op n)  |  HAVING (?k = <iri>)  |  HAVING (?k != <iri>) with ?k a grouping key *)
 Inductive having :=
 | HAgg (a : aggspec) (op : cmpop) (n : Z)
@@ -409,7 +519,7 @@ Fixpoint entries {A} (l : list (var * option A)) : list (var * A) :=
 (* the row of one group after Extend: projected group variables (implicit
    SAMPLE) in GROUP BY order, then the aliases in SELECT order *)
 Definition group_row (gv : list var) (aggs : list (var * aggspec)) (rows : list sol) : sol :=
-  entries (map (fun g => (g, hd_error (bound (ovals g rows)))) gv
+  entries (map (fun g => (g, hd_error (bound (ovals (EVar g) rows)))) gv
            ++ map (fun va => (fst va, agg_run (snd va) rows)) aggs).
 
 (* Filter(HAVING) on the row of the group *)
@@ -419,7 +529,7 @@ Definition having_eval (h : option having) (rows : list sol) : bool :=
   | Some (HAgg ha op n) => cond_holds op n (agg_run ha rows)
   | Some (HKey v ne iri) =>
       (* translateAggregates: the key variable inside HAVING becomes SAMPLE(?v) *)
-      key_cond ne iri (hd_error (bound (ovals v rows)))
+      key_cond ne iri (hd_error (bound (ovals (EVar v) rows)))
   end.
 
 Definition eval_aggjoin (gv : list var) (aggs : list (var * aggspec)) (h : option having)
@@ -540,11 +650,17 @@ Definition agg_adm (a : aggspec) (rows : list sol) (r : option term) : bool :=
       match a_kind a with
       | ACount => oterm_eqb r (Some (TInt (Z.of_nat (length dv))))
       | ASum =>
-          if forallb is_numeric dv
+          (* 18.5.1.3: an error element makes the sum an error (unbound); by convention a
+             solution in which a plain VARIABLE argument is unbound is left out *)
+          if negb (is_var v) && has_unbound (ovals v rows)
+          then match r with None => true | Some _ => false end
+          else if forallb is_numeric dv
           then match r with Some t => num_same t (lit_of_num (sum_nums (nums_of dv))) | None => false end
           else match r with None => true | Some _ => false end      (* error: unbound *)
       | AAvg =>
-          if forallb is_numeric dv
+          if negb (is_var v) && has_unbound (ovals v rows)
+          then match r with None => true | Some _ => false end
+          else if forallb is_numeric dv
           then match dv, r with
                | [], Some t => term_eqb t (TInt 0)
                | _ :: _, Some t => num_same t (avg_lit (sum_nums (nums_of dv)) (Z.of_nat (length dv)))
